@@ -538,7 +538,7 @@ def _c10(ctx, ad, cfg, env, runner, rng, drv, mult):
 
     if "instance" not in ad.ops:
         return
-    n = budget(ctx, 40, 400) * mult
+    n = budget(ctx, 40, 400) * mult * int(cfg.meta.get("instances_factor", 1))
     n = min(n, cfg.meta.get("max_instances", n))
     seeds = [int(x) for x in rng.integers(1 << 31, size=n)]
     states = [runner.reset(jax.random.PRNGKey(sd))[0] for sd in seeds]
